@@ -209,6 +209,15 @@ class OraclesMixin:
                 if pt.first_digest:
                     self.stats["rejects_deleted_missing"] += 1
                 continue
+            for rep, d in ipt.first_digest.items():
+                if isinstance(rep, str) and rep in inner.replicas and rep not in pt.first_digest and rep in self.replicas:
+                    self.violate(
+                        "C14",
+                        "O14.3",
+                        f"table {tid} exports on {rep} in the run without the {len(rejected)} rejected calls, but not in the run with them: a rejected call was not a no-op",
+                        rep=rep,
+                        kind="export_lost",
+                    )
             for rep, d in pt.first_digest.items():
                 if isinstance(rep, str) and rep in ipt.first_digest:
                     self.stats["rejects_deleted_compared"] += 1
